@@ -28,7 +28,10 @@ COQ = os.path.join(ROOT, "coq")
 HARNESS = os.path.join(ROOT, "harness")
 BUILD = os.path.join(ROOT, "build")
 BINDIR = os.path.join(BUILD, "bin")
-REPO = os.environ.get("VERIF_REPO", "/repo")
+REPO = os.path.abspath(os.environ.get("VERIF_REPO", "/repo"))
+# A scratch copy/worktree of /repo can be checked (mutation self-tests) without touching /repo:
+#   VERIF_REPO=/tmp/x/wt ./check Cxx      -> separate go.mod (-modfile), binary, run dir; evidence is NOT written.
+ALT = "" if REPO == "/repo" else "-" + hashlib.sha256(REPO.encode()).hexdigest()[:8]
 NCPU = os.cpu_count() or 4
 
 STD_AXIOMS = {
@@ -156,18 +159,30 @@ def property_obligations(pid, timeout=900):
 # ------------------------------------------------------------------ Go side
 
 def harness_bin(pid):
-    return os.path.join(BINDIR, "harness-" + pid.lower())
+    return os.path.join(BINDIR, "harness-" + pid.lower() + ALT)
+
+
+def alt_modfile():
+    d = os.path.join(BUILD, "gomod" + ALT)
+    os.makedirs(d, exist_ok=True)
+    txt = open(os.path.join(HARNESS, "go.mod")).read().replace("=> /repo", "=> " + REPO)
+    open(os.path.join(d, "go.mod"), "w").write(txt)
+    shutil.copyfile(os.path.join(REPO, "go.sum"), os.path.join(d, "go.sum"))
+    return os.path.join(d, "go.mod")
 
 
 def build_harness(pid, timeout=1200, race=False):
     """One binary per property (cmd/cXX), rebuilt from /repo's working tree on every run."""
     with Lock("harness"):
         os.makedirs(BINDIR, exist_ok=True)
-        try:
-            shutil.copyfile(os.path.join(REPO, "go.sum"), os.path.join(HARNESS, "go.sum"))
-        except OSError:
-            pass
         cmd = ["go", "build", "-tags", "verif"]
+        if ALT:
+            cmd.append("-modfile=" + alt_modfile())
+        else:
+            try:
+                shutil.copyfile(os.path.join(REPO, "go.sum"), os.path.join(HARNESS, "go.sum"))
+            except OSError:
+                pass
         if race:
             cmd.append("-race")
         cmd += ["-o", harness_bin(pid), "./cmd/" + pid.lower()]
@@ -226,7 +241,7 @@ class Check:
     def __init__(self, pid, cfg, tier, seed):
         self.pid, self.cfg, self.tier, self.seed = pid, cfg, tier, seed
         self.t0 = time.time()
-        self.rundir = os.path.join(BUILD, "run", pid)
+        self.rundir = os.path.join(BUILD, "run", pid + ALT)
         self.lines = []
         self.violations = 0
         self.known_printed = []
@@ -337,7 +352,7 @@ class Check:
     def shrink(self, case):
         """Greedy shrinking through `harness shrink` + coqc; returns a (smaller) failing case."""
         cur = case
-        sdir = os.path.join(BUILD, "run", self.pid + "-shrink")
+        sdir = os.path.join(BUILD, "run", self.pid + ALT + "-shrink")
         for _ in range(self.cfg.get("shrink_rounds", 25)):
             tmp = os.path.join(sdir, "cur.json")
             os.makedirs(sdir, exist_ok=True)
@@ -471,7 +486,7 @@ class Check:
             self.step_thorough_coqchk()
             if self.broken and self.violations == 0:
                 self.violation(self.write_replay("no-failing-input-found", None), nofail=True)
-        if not replay:
+        if not replay and not ALT:
             self.write_evidence()
         ok = self.violations == 0
         self.say("%s %s tier=%s seed=%d obligations=%s/%s cases=%s wall=%.1fs" % (
